@@ -43,7 +43,7 @@ type c03Params struct {
 func (c03) ID() string    { return "C03" }
 func (c03) Level() string { return "fault_enumeration" }
 func (c03) Rule() string {
-	return "a man in the middle between two real endpoints applies one fault to the handshake: XOR with 0x01 / 0x80 / 0xFF at a byte position of a record (quick: a stratified sample of positions of every record, thorough: every position), drop, duplicate, swap with the next, truncate, or inject a record of any content type before any record (stream stack); corrupt at a position, drop, duplicate, delay or truncate a datagram (datagram stack, under virtual time so that retransmission can repair); plus seeded multi-fault plans (thorough); full and resumed handshakes, four suites, with and without client authentication, and one datagram mode with a path MTU of 400 (fragmented flights; the bytes of every fragment header are always among the positions tried). An untampered run with the same seeds is the baseline. Oracle: no task panics, and it is never the case that both endpoints complete unless version, suite, ALPN, resumption flag and session id equal the baseline's, the Finished values both sides recorded agree, (stream stack) the handshake and ChangeCipherSpec payloads delivered to each endpoint are byte for byte what the other sent - also tried with hellos re-encoded to the same fields (unknown extension appended, extensions exchanged, bytes behind the extensions) - and (datagram stack) no completion without a timer expiry when a payload byte of a handshake or ChangeCipherSpec record (hellos of the cookie exchange excepted: they are re-sent on a fresh HelloVerifyRequest; headers of proper fragments excepted: they are framing) was changed. Also structured rewrites of other messages in transit, lengths fixed up: ChangeCipherSpec lengthened by a byte, the list of a Certificate message cut to its first certificate or emptied (stream: tried on every record; datagram: on every datagram, with the same no-completion-without-a-timer rule). distinct = distinct (mode, fault); non-trivial = the fault hit a record / datagram of the handshake"
+	return "a man in the middle between two real endpoints applies one fault to the handshake: XOR with 0x01 / 0x80 / 0xFF at a byte position of a record (quick: a stratified sample of positions of every record, thorough: every position), drop, duplicate, swap with the next, truncate, or inject a record of any content type before any record (stream stack); corrupt at a position, drop, duplicate, delay or truncate a datagram (datagram stack, under virtual time so that retransmission can repair); plus seeded multi-fault plans (thorough); full and resumed handshakes, four suites, with and without client authentication, and one datagram mode with a path MTU of 400 (fragmented flights; the bytes of every fragment header are always among the positions tried). An untampered run with the same seeds is the baseline. Oracle: no task panics, and it is never the case that both endpoints complete unless version, suite, ALPN, resumption flag and session id equal the baseline's, the Finished values both sides recorded agree, (stream stack) the handshake and ChangeCipherSpec payloads delivered to each endpoint are byte for byte what the other sent - also tried with hellos re-encoded to the same fields (unknown extension appended, extensions exchanged, bytes behind the extensions) - and (datagram stack) no completion without a timer expiry when a payload byte of a handshake or ChangeCipherSpec record (hellos of the cookie exchange excepted: they are re-sent on a fresh HelloVerifyRequest; headers of proper fragments excepted: they are framing) was changed. Also structured rewrites of other messages in transit, lengths fixed up: ChangeCipherSpec lengthened by a byte, the list of a Certificate message cut to its first certificate or emptied (stream: tried on every record; datagram: on every datagram, with the same no-completion-without-a-timer rule). Two more modes (one per stack) with a client that names trusted CAs (trusted_ca_keys extension in its hello): every byte position of that hello is tried in the quick tier too. distinct = distinct (mode, fault); non-trivial = the fault hit a record / datagram of the handshake"
 }
 func (c03) Components() (real, stub []string) {
 	return []string{"tlcp/dtlcp client+server (instrumented): transcript hashing, Finished, record layer, state machines, retransmission"},
